@@ -26,7 +26,9 @@ def parseY (s : String) : Option YVal :=
   match s.toList.head? with
   | some 'i' => (fromHex (tailS s)).map .int
   | some 's' => (fromHex (tailS s)).map .str
-  | some 'f' => (tailS s).toNat?.map .flt
+  | some 'f' =>
+    let t := tailS s
+    if t.toList.head? == some '-' then (tailS t).toNat?.map (.flt true) else t.toNat?.map (.flt false)
   | some 'l' => (hexList (tailS s)).map .lst
   | some 'b' => some (.bool (tailS s == "1"))
   | some 'n' => some .null
@@ -118,6 +120,9 @@ def handleC19 : List String → String
   | ["names"] =>
     ",".intercalate (Scrapli.Gen.PlatformOptions.entries.map fun e =>
       toHex e.name ++ ":" ++ toHex (ofStr e.documented))
+  | ["rowdiff"] =>
+    "opts=" ++ ",".intercalate (changedOptionRows.map fun o => (spec o).name) ++
+    " plat=" ++ ",".intercalate changedPlatformRows
   | ["compat", k, opts] =>
     match C19.parseCtor k, C19.parseOpts opts with
     | some k, some o => b2s (pairwiseB compatB (Scrapli.Options.effective k o))
